@@ -265,24 +265,60 @@ def _forge_sig(ev, uni):
     return ev
 
 
+def universes_c04():
+    """events whose contents, tag values and tag items stress serialisers (relayfam's hostile variants) plus the
+    representations of the 'verbatim' universe, each under one palette: what a look-up by id serves must be the accepted event"""
+    from . import relayfam
+
+    base = [d for d in relayfam.relay_universe() if "mutate" not in d] + relayfam.weird_events()
+    verb = [dict(d, sym="v_" + d["sym"], tags=[[("v_" + x if x == "pn" else x) for x in t] for t in d["tags"]])
+            for d in universes_c03()["verbatim"]]
+    us = {}
+    for pal in ("quotes", "nul", "unicode", "bslash", "plain"):
+        us["h_" + pal] = base + verb
+        PALETTE_OF["h_" + pal] = pal
+        st = dict(relayfam.WEIRD_SYMTAB)
+        st.update(SYMTABS["verbatim"])
+        SYMTABS["h_" + pal] = st
+    return us
+
+
+PALETTE_OF = {}
+
 SYMTABS = {"dunicode": {"uml": "\u00e4", "umlx": "\u00e4x"},
            "delnone": {"acoord": "30000:%s:x" % C.pubkey("A")},
            "verbatim": {"sp": " a ", "up": "ABCDEF", "num": "007", "nfc": "\u00e9", "nfd": "e\u0301"},
            "gcdigits": {"v999": "999", "vbig": "17000000150", "vz14": "01700000014", "vi14": 1700000014, "vneg": "0abc"}}
 
-UNIVERSES = {"C03": universes_c03, "C06": universes_c06, "C08": universes_c08, "C09": universes_c09, "C17": universes_c17}
-GC_TIMES = {"C03": (), "C17": (15, 16), "C06": (), "C08": (), "C09": ()}
+UNIVERSES = {"C04": universes_c04, "C03": universes_c03, "C06": universes_c06, "C08": universes_c08, "C09": universes_c09, "C17": universes_c17}
+GC_TIMES = {"C04": (), "C03": (), "C17": (15, 16), "C06": (), "C08": (), "C09": ()}
 
 
 def final_probes(uni, prop):
-    """probes appended to every script: every id through get_event and through a query by ids"""
+    """probes appended to every script: every id through get_event, through GET /e/<id> and through a query by ids"""
     probes = []
     syms = list(uni.order)
     for s in syms:
         if uni.abs[s]["auth"]:
             probes.append(("get", s))
+            probes.append(("http", s))
     probes.append(("query", [{"ids": [s for s in syms if uni.abs[s]["auth"]]}]))
     return probes
+
+
+def with_lookups(script, uni):
+    """look-ups interleaved with the behaviour: after every step, every event submitted so far is looked up by id through
+    both paths (a look-up made before a removal must not influence the one made after it)"""
+    out, seen = [], []
+    for k, op in enumerate(script):
+        out.append(op)
+        if op[0] == "submit" and op[1] not in seen and uni.abs[op[1]]["auth"]:
+            seen.append(op[1])
+        if k < len(script) - 1 or True:
+            for s in seen:
+                out.append(("http", s))
+                out.append(("get", s))
+    return tuple(out)
 
 
 def nontrivial(prop, uni, tr):
@@ -308,6 +344,8 @@ def nontrivial(prop, uni, tr):
         return sum(1 for ln in tr if ln["a"] == "Submit") >= 2
     if prop == "C03":
         return any(ln["a"] == "Submit" and not ab[ln["id"]]["auth"] for ln in tr)
+    if prop == "C04":
+        return any(ln["a"] == "Get" and ln.get("via") == "http" and ln["found"] for ln in tr)
     return True
 
 
@@ -343,7 +381,7 @@ def run(prop, tier, seed, backends=BACKENDS, only_universe=None):
     rnd = random.Random(seed)
     design = tlc.DesignCheck([("MC_Store", "MC_Store_%s.cfg" % b, "Store/" + b) for b in backends], workers=3, timeout=1800)
     depth = {"quick": 3, "thorough": 4}[tier]
-    if prop == "C03":
+    if prop in ("C03", "C04"):
         depth = {"quick": 1, "thorough": 2}[tier]     # every variant on its own (and pairs): the quantifier is over inputs
         depth_of = {"twins": {"quick": 3, "thorough": 4}[tier], "verbatim": 2}
     cap = {"quick": 1500 if prop == "C06" else 500, "thorough": 6000}[tier]
@@ -353,10 +391,10 @@ def run(prop, tier, seed, backends=BACKENDS, only_universe=None):
     for uname, descs in UNIVERSES[prop]().items():
         if only_universe and uname != only_universe:
             continue
-        uni = Universe(descs, symtab=SYMTABS.get(uname))
+        uni = Universe(descs, palette=PALETTE_OF.get(uname, "plain"), symtab=SYMTABS.get(uname))
         for backend in backends:
             for drain_each in ([True] if backend == "sql" else [True, False]):
-                d0 = depth_of.get(uname, depth) if prop == "C03" else depth
+                d0 = depth_of.get(uname, depth) if prop in ("C03", "C04") else depth
                 d = d0 if drain_each else d0 + 1
                 if len(descs) > 9 and not drain_each:
                     d = d0
@@ -376,7 +414,7 @@ def run(prop, tier, seed, backends=BACKENDS, only_universe=None):
             scripts = scripts[:cap]
         probes = tuple(final_probes(cf["uni"], prop))
         cf["stimuli"] = scripts
-        cf["scripts"] = [tuple(sc) + probes for sc in scripts]
+        cf["scripts"] = [with_lookups(sc, cf["uni"]) + probes for sc in scripts]
     # phase 2: run on the real storage classes
     all_traces = pool.run_many(configs)
     for cf, traces in zip(configs, all_traces):
@@ -401,7 +439,7 @@ def run(prop, tier, seed, backends=BACKENDS, only_universe=None):
             # (C03: something stored, queued or announced that equals no submitted event in all seven fields cannot hash to its id)
             mine = [b for b in bad if b[0].startswith(own) or (prop == "C06" and b[0] in ("Conform", "Garbage")
                                                                and not _named_on_line(bad, b[1]))
-                    or (prop == "C03" and b[0] == "Garbage")]
+                    or (prop in ("C03", "C04") and b[0] == "Garbage")]
             for b in bad:
                 if b not in mine:
                     other[b[0]] = other.get(b[0], 0) + 1
@@ -431,6 +469,7 @@ def run(prop, tier, seed, backends=BACKENDS, only_universe=None):
 
 
 _RULE = {
+    "C04": "an accepted event was served by GET /e/<id>",
     "C03": "an event that is not authentic was submitted",
     "C09": "some step removed a stored event",
     "C08": "an accepted kind-5 event was applied",
